@@ -86,22 +86,43 @@ Section Proofs.
     s_th s1 = s_th s2 /\ s_w s1 = s_w s2 /\ v_term (s_vm s1) = v_term (s_vm s2) /\
     memo_sound cfg (v_memo (s_vm s1)) /\ memo_sound cfg (v_memo (s_vm s2)).
 
-  Lemma step_sim cfg now year e s1 s2 :
-    sim cfg s1 s2 -> sim cfg (step_new cfg now year e s1) (step_new cfg now year e s2).
+  Lemma do_strptime_sim cfg year layout value s1 s2 :
+    sim cfg s1 s2 ->
+    sim cfg (do_strptime memo_new strptime_new cfg year layout value s1)
+            (do_strptime memo_new strptime_new cfg year layout value s2).
   Proof.
     intros (TH & W & TM & S1 & S2).
     destruct s1 as [th1 w1 [m1 t1]], s2 as [th2 w2 [m2 t2]]. cbn in *. subst th2 w2 t2.
-    unfold TimeReg.step_new, step.
-    destruct e; cbn; try (repeat split; auto; fail).
-    - (* strptime *)
-      destruct (strptime_new_spec cfg year layout value m1 S1) as [R1 S1'].
-      destruct (strptime_new_spec cfg year layout value m2 S2) as [R2 S2'].
-      destruct (strptime_new cfg year layout value m1) as [m1' r1].
-      destruct (strptime_new cfg year layout value m2) as [m2' r2].
-      cbn in *. subst r1 r2.
-      destruct (strptime_spec cfg year layout value); cbn; repeat split; auto.
+    unfold do_strptime. cbn.
+    destruct (strptime_new_spec cfg year layout value m1 S1) as [R1 S1'].
+    destruct (strptime_new_spec cfg year layout value m2 S2) as [R2 S2'].
+    destruct (strptime_new cfg year layout value m1) as [m1' r1].
+    destruct (strptime_new cfg year layout value m2) as [m2' r2].
+    cbn in *. subst r1 r2.
+    destruct (strptime_spec cfg year layout value); cbn; repeat split; auto.
+  Qed.
+
+  Lemma step_sim cfg now year e s1 s2 :
+    sim cfg s1 s2 -> sim cfg (step_new cfg now year e s1) (step_new cfg now year e s2).
+  Proof.
+    intros H. unfold TimeReg.step_new, step. destruct e;
+      try (destruct H as (TH & W & TM & S1 & S2);
+           destruct s1 as [th1 w1 [m1 t1]], s2 as [th2 w2 [m2 t2]]; cbn in *; subst th2 w2 t2;
+           repeat split; auto; fail).
+    - now apply do_strptime_sim.
     - (* set *)
+      destruct H as (TH & W & TM & S1 & S2).
+      destruct s1 as [th1 w1 [m1 t1]], s2 as [th2 w2 [m2 t2]]; cbn in *; subst th2 w2 t2.
       destruct (t_stack th1); cbn; repeat split; auto.
+    - (* capref *)
+      destruct H as (TH & W & TM & S1 & S2).
+      destruct s1 as [th1 w1 [m1 t1]], s2 as [th2 w2 [m2 t2]]; cbn in *; subst th2 w2 t2.
+      destruct (cap_read re k (t_caps th1)); cbn; repeat split; auto.
+    - (* strptime from the stack *)
+      destruct H as (TH & W & TM & S1 & S2).
+      destruct s1 as [th1 w1 [m1 t1]], s2 as [th2 w2 [m2 t2]]; cbn in *; subst th2 w2 t2.
+      destruct (t_strs th1) as [|v ss]; [cbn; repeat split; auto|].
+      apply do_strptime_sim. repeat split; auto.
   Qed.
 
   Lemma exec_sim cfg now year evs : forall s1 s2,
@@ -209,6 +230,27 @@ Section Proofs.
   Definition st_ok (cfg : config) (s : mstate memo_new) : Prop :=
     v_term (s_vm s) = false /\ memo_sound cfg (v_memo (s_vm s)).
 
+  Notation spec_step := (spec_step time_parse add_years).
+  Notation spec_run := (spec_run time_parse add_years).
+
+  (* the strptime core, from any state whose memo is sound *)
+  Lemma do_strptime_spec cfg year layout value s :
+    st_ok cfg s ->
+    let s' := do_strptime memo_new strptime_new cfg year layout value s in
+    match strptime_spec cfg year layout value with
+    | Some t => s_th s' = {| t_time := t; t_stack := t_stack (s_th s);
+                             t_caps := t_caps (s_th s); t_strs := t_strs (s_th s) |} /\
+                s_w s' = s_w s /\ st_ok cfg s'
+    | None => w_errs (s_w s') = N.succ (w_errs (s_w s)) /\ w_store (s_w s') = w_store (s_w s) /\
+              v_term (s_vm s') = true
+    end.
+  Proof.
+    intros [T S]. cbn zeta. unfold do_strptime.
+    destruct (strptime_new_spec cfg year layout value _ S) as [R S'].
+    destruct (strptime_new cfg year layout value (v_memo (s_vm s))) as [m' r]. cbn in *. subst r.
+    destruct (strptime_spec cfg year layout value); cbn; repeat split; auto.
+  Qed.
+
   (* one strptime, from any state whose memo is sound *)
   Lemma step_strptime cfg now year layout value s :
     st_ok cfg s ->
@@ -220,22 +262,31 @@ Section Proofs.
               v_term (s_vm s') = true
     end.
   Proof.
-    intros [T S]. cbn zeta. unfold TimeReg.step_new, step.
-    destruct (strptime_new_spec cfg year layout value _ S) as [R S'].
-    destruct (strptime_new cfg year layout value (v_memo (s_vm s))) as [m' r]. cbn in *. subst r.
-    destruct (strptime_spec cfg year layout value); cbn; repeat split; auto.
+    intros OK. cbn zeta. pose proof (do_strptime_spec cfg year layout value s OK) as H. cbn zeta in H.
+    change (step_new cfg now year (EStrptime layout value) s)
+      with (do_strptime memo_new strptime_new cfg year layout value s).
+    destruct (strptime_spec cfg year layout value).
+    - destruct H as (A & B & C). rewrite A. cbn. auto.
+    - exact H.
   Qed.
+
+  (* register, match table and string stack of a machine state *)
+  Definition tables (s : mstate memo_new) : spec_state :=
+    (t_time (s_th s), t_caps (s_th s), t_strs (s_th s)).
 
   Lemma step_ok_time cfg now year e s :
     st_ok cfg s ->
     let s' := step_new cfg now year e s in
     v_term (s_vm s') = false ->
-    st_ok cfg s' /\ t_time (s_th s') = time_spec cfg year [e] (t_time (s_th s)).
+    st_ok cfg s' /\ tables s' = spec_step cfg year e (tables s).
   Proof.
-    intros OK s' T'. destruct e; subst s'.
+    intros OK s' T'. unfold tables. destruct e; subst s'.
     - pose proof (step_strptime cfg now year layout value s OK) as H. cbn zeta in H.
-      cbn [TimeReg.time_spec]. destruct (strptime_spec cfg year layout value).
-      + destruct H as (A & _ & _ & B). auto.
+      pose proof (do_strptime_spec cfg year layout value s OK) as H2. cbn zeta in H2.
+      change (step_new cfg now year (EStrptime layout value) s)
+        with (do_strptime memo_new strptime_new cfg year layout value s) in *.
+      cbn [TimeReg.spec_step]. destruct (strptime_spec cfg year layout value).
+      + destruct H2 as (A & _ & B). rewrite A. cbn. auto.
       + destruct H as (_ & _ & B). congruence.
     - destruct OK as [T S]. split; [split; auto|reflexivity].
     - destruct OK as [T S]. split; [split; auto|reflexivity].
@@ -245,38 +296,66 @@ Section Proofs.
     - destruct OK as [T S]. split; [split; auto|reflexivity].
     - cbn in T'. discriminate.
     - cbn in T'. discriminate.
+    - destruct OK as [T S]. split; [split; auto|reflexivity].
+    - destruct OK as [T S]. unfold TimeReg.step_new, step in *. cbn [TimeReg.spec_step].
+      destruct (cap_read re k (t_caps (s_th s))); cbn in *; [|congruence].
+      split; [split; auto|reflexivity].
+    - unfold TimeReg.step_new, step in *. cbn [TimeReg.spec_step].
+      destruct (t_strs (s_th s)) as [|v ss] eqn:SS; [cbn in T'; destruct OK; discriminate|].
+      assert (OK2 : st_ok cfg (set_tables memo_new (t_caps (s_th s)) ss s)) by (destruct OK; split; auto).
+      pose proof (do_strptime_spec cfg year layout v _ OK2) as H2. cbn zeta in H2.
+      destruct (strptime_spec cfg year layout v).
+      + destruct H2 as (A & _ & B). rewrite A. cbn. auto.
+      + destruct H2 as (_ & _ & B). congruence.
   Qed.
 
-  Lemma time_spec_app cfg year a : forall b reg,
-    time_spec cfg year (a ++ b) reg = time_spec cfg year b (time_spec cfg year a reg).
-  Proof.
-    induction a as [|e r IH]; intros b reg; [reflexivity|].
-    destruct e; cbn; auto. destruct (strptime_spec cfg year layout value); auto.
-  Qed.
+  Lemma spec_run_app cfg year a : forall b st,
+    spec_run cfg year (a ++ b) st = spec_run cfg year b (spec_run cfg year a st).
+  Proof. induction a as [|e r IH]; intros b st; [reflexivity|]. cbn. apply IH. Qed.
 
-  Lemma time_spec_no_sets cfg year evs : forall reg,
-    forallb (fun e => negb (sets_time e)) evs = true -> time_spec cfg year evs reg = reg.
+  Lemma spec_run_no_sets cfg year evs : forall st,
+    forallb (fun e => negb (sets_time e)) evs = true ->
+    fst (fst (spec_run cfg year evs st)) = fst (fst st).
   Proof.
-    induction evs as [|e r IH]; intros reg H; [reflexivity|].
+    induction evs as [|e r IH]; intros st H; [reflexivity|].
     cbn in H. apply andb_true_iff in H. destruct H as [H1 H2].
-    destruct e; cbn in *; try discriminate; auto.
+    cbn [TimeReg.spec_run]. rewrite IH by exact H2.
+    destruct st as [[reg cp] ss]. destruct e; cbn in *; try discriminate; auto.
+    destruct (cap_read re k cp); reflexivity.
   Qed.
 
-  (* the register after a prefix of a line that has not ended *)
-  Lemma exec_time cfg now year evs : forall s,
+  Lemma time_spec_no_sets cfg year evs reg :
+    forallb (fun e => negb (sets_time e)) evs = true -> time_spec cfg year evs reg = reg.
+  Proof. intros H. unfold TimeReg.time_spec. now rewrite spec_run_no_sets. Qed.
+
+  (* the tables after a prefix of a line that has not ended *)
+  Lemma exec_tables cfg now year evs : forall s,
     st_ok cfg s ->
     let s' := exec_new cfg now year evs s in
     v_term (s_vm s') = false ->
-    st_ok cfg s' /\ t_time (s_th s') = time_spec cfg year evs (t_time (s_th s)).
+    st_ok cfg s' /\ tables s' = spec_run cfg year evs (tables s).
   Proof.
     induction evs as [|e r IH]; intros s OK; cbn zeta; [intros _; split; auto|].
-    cbn [TimeReg.exec_new exec]. unfold TimeReg.exec_new. cbn [exec].
+    unfold TimeReg.exec_new. cbn [exec].
     fold (step_new cfg now year e s).
     destruct (v_term (s_vm (step_new cfg now year e s))) eqn:E; [congruence|].
     intros T'. destruct (step_ok_time cfg now year e s OK E) as [OK1 TM1].
     destruct (IH _ OK1 T') as [OK2 TM2]. split; [exact OK2|].
     fold (exec_new cfg now year r (step_new cfg now year e s)) in *.
-    rewrite TM2, TM1. change (e :: r) with ([e] ++ r). now rewrite time_spec_app.
+    rewrite TM2, TM1. reflexivity.
+  Qed.
+
+  Lemma exec_time cfg now year evs s :
+    st_ok cfg s -> t_caps (s_th s) = [] -> t_strs (s_th s) = [] ->
+    let s' := exec_new cfg now year evs s in
+    v_term (s_vm s') = false ->
+    st_ok cfg s' /\ t_time (s_th s') = time_spec cfg year evs (t_time (s_th s)).
+  Proof.
+    intros OK C0 S0 s' T. destruct (exec_tables cfg now year evs s OK T) as [OK' TB].
+    split; [exact OK'|]. unfold TimeReg.time_spec, tables in *.
+    rewrite C0, S0 in TB. cbn zeta in TB.
+    change (t_time (s_th s')) with (fst (fst (t_time (s_th s'), t_caps (s_th s'), t_strs (s_th s')))).
+    subst s'. now rewrite TB.
   Qed.
 
   (* the state in which a line starts, after any history *)
@@ -303,7 +382,7 @@ Section Proofs.
     end.
   Proof.
     intros s T s'.
-    destruct (exec_time cfg now year pre _ (line_start_ok cfg hist w0) T) as [OK _].
+    destruct (exec_time cfg now year pre _ (line_start_ok cfg hist w0) eq_refl eq_refl T) as [OK _].
     pose proof (step_strptime cfg now year layout value s OK) as H. cbn zeta in H.
     unfold TimeReg.strptime_spec in H.
     destruct (time_parse (c_loc cfg) layout value).
@@ -323,7 +402,7 @@ Section Proofs.
        {| d_val := v; d_time := stamp_value now reg |}).
   Proof.
     intros s T reg.
-    destruct (exec_time cfg now year pre _ (line_start_ok cfg hist w0) T) as [_ TM].
+    destruct (exec_time cfg now year pre _ (line_start_ok cfg hist w0) eq_refl eq_refl T) as [_ TM].
     fold s in TM. rewrite line_start_time in TM. fold reg in TM.
     repeat split.
     - cbn. now rewrite TM.
@@ -336,7 +415,9 @@ Section Proofs.
     forallb (fun e => negb (sets_time e)) mid = true ->
     time_spec cfg year (pre ++ ESettime n :: mid) zero_ns = n * ns_per_s.
   Proof.
-    intros H. rewrite time_spec_app. cbn. now apply time_spec_no_sets.
+    intros H. unfold TimeReg.time_spec. rewrite spec_run_app. cbn [TimeReg.spec_run].
+    rewrite spec_run_no_sets by exact H.
+    destruct (spec_run cfg year pre (zero_ns, [], [])) as [[reg cp] ss]. reflexivity.
   Qed.
 
   Theorem settime_then_timestamp cfg hist w0 now year pre n mid :
@@ -391,20 +472,92 @@ Section Proofs.
     forallb (fun e => negb (sets_time e)) mid = true ->
     time_spec cfg year (pre ++ EStrptime layout value :: mid) reg0 = adjust cfg year layout value p.
   Proof.
-    intros TP H. rewrite time_spec_app. cbn. unfold TimeReg.strptime_spec. rewrite TP.
-    now apply time_spec_no_sets.
+    intros TP H. unfold TimeReg.time_spec. rewrite spec_run_app. cbn [TimeReg.spec_run].
+    rewrite spec_run_no_sets by exact H.
+    destruct (spec_run cfg year pre (reg0, [], [])) as [[reg cp] ss]. cbn.
+    unfold TimeReg.strptime_spec. now rewrite TP.
   Qed.
 
   (* a write touches the written metric only *)
+  Lemma do_strptime_store cfg year layout value (s : mstate memo_new) :
+    w_store (s_w (do_strptime memo_new strptime_new cfg year layout value s)) = w_store (s_w s).
+  Proof.
+    unfold do_strptime.
+    destruct (strptime_new cfg year layout value (v_memo (s_vm s))) as [m2 [t|]]; reflexivity.
+  Qed.
+
   Lemma write_frame cfg now year s e m' :
     (match e with ESet m | EInc m => m' <> m | _ => True end) ->
     store_get m' (w_store (s_w (step_new cfg now year e s))) = store_get m' (w_store (s_w s)).
   Proof.
     intros H. unfold TimeReg.step_new, step. destruct e; cbn; auto.
-    - destruct (strptime_new cfg year layout value (v_memo (s_vm s))) as [m2 [t|]]; reflexivity.
+    - now rewrite do_strptime_store.
     - destruct (t_stack (s_th s)); cbn; [reflexivity|]. now apply store_get_set_other.
     - now apply store_get_set_other.
+    - destruct (cap_read re k (t_caps (s_th s))); reflexivity.
+    - destruct (t_strs (s_th s)); [reflexivity|]. now rewrite do_strptime_store.
   Qed.
+
+  (* captures never come from an earlier line: a slot that no Match of THIS
+     line has written is empty, whatever the history *)
+  Lemma caps_untouched cfg year re evs : forall st,
+    forallb (fun e => negb (matches_re re e)) evs = true ->
+    caps_get re (snd (fst (spec_run cfg year evs st))) = caps_get re (snd (fst st)).
+  Proof.
+    induction evs as [|e r IH]; intros st H; [reflexivity|].
+    cbn in H. apply andb_true_iff in H. destruct H as [H1 H2].
+    cbn [TimeReg.spec_run]. rewrite IH by exact H2.
+    destruct st as [[reg cp] ss]. destruct e; cbn in *; auto.
+    - destruct (strptime_spec cfg year layout value); reflexivity.
+    - apply negb_true_iff in H1. rewrite N.eqb_sym in H1. now rewrite H1.
+    - destruct (cap_read re0 k cp); reflexivity.
+    - destruct ss as [|v ss']; [reflexivity|]. destruct (strptime_spec cfg year layout v); reflexivity.
+  Qed.
+
+  Theorem capture_needs_match_on_this_line cfg hist w0 now year pre re k :
+    forallb (fun e => negb (matches_re re e)) pre = true ->
+    let s := exec_new cfg now year pre (line_start cfg hist w0) in
+    v_term (s_vm s) = false ->
+    let s' := step_new cfg now year (ECapref re k) s in
+    w_errs (s_w s') = N.succ (w_errs (s_w s)) /\ w_store (s_w s') = w_store (s_w s) /\
+    v_term (s_vm s') = true.
+  Proof.
+    intros H s T s'.
+    destruct (exec_tables cfg now year pre _ (line_start_ok cfg hist w0) T) as [_ TB]. fold s in TB.
+    pose proof (caps_untouched cfg year re pre (tables (line_start cfg hist w0)) H) as C.
+    rewrite <- TB in C. unfold tables in C. cbn in C.
+    subst s'. unfold TimeReg.step_new, step, cap_read. rewrite C. cbn. auto.
+  Qed.
+
+  (* ... and a slot written on this line yields the group of the last Match *)
+  Theorem capture_reads_last_match cfg hist w0 now year pre re res mid k :
+    forallb (fun e => negb (matches_re re e)) mid = true ->
+    let s := exec_new cfg now year (pre ++ EMatch re res :: mid) (line_start cfg hist w0) in
+    v_term (s_vm s) = false ->
+    let s' := step_new cfg now year (ECapref re k) s in
+    match res with
+    | Some gs =>
+        match nth_error gs k with
+        | Some g => t_strs (s_th s') = g :: t_strs (s_th s) /\ s_w s' = s_w s /\ v_term (s_vm s') = false
+        | None => v_term (s_vm s') = true /\ w_errs (s_w s') = N.succ (w_errs (s_w s))
+        end
+    | None => v_term (s_vm s') = true /\ w_errs (s_w s') = N.succ (w_errs (s_w s))
+    end.
+  Proof.
+    intros H s T s'.
+    destruct (exec_tables cfg now year _ _ (line_start_ok cfg hist w0) T) as [[T0 _] TB]. fold s in TB.
+    rewrite spec_run_app in TB. cbn [TimeReg.spec_run] in TB.
+    pose proof (caps_untouched cfg year re mid
+                  (spec_step cfg year (EMatch re res) (spec_run cfg year pre (tables (line_start cfg hist w0)))) H) as C.
+    rewrite <- TB in C. unfold tables in C. cbn [fst snd] in C.
+    destruct (spec_run cfg year pre (t_time (s_th (line_start cfg hist w0)), t_caps (s_th (line_start cfg hist w0)),
+                t_strs (s_th (line_start cfg hist w0)))) as [[reg cp] ss].
+    cbn in C. rewrite N.eqb_refl in C.
+    subst s'. unfold TimeReg.step_new, step, cap_read. rewrite C.
+    destruct res as [gs|]; [|cbn; auto].
+    destruct (nth_error gs k); cbn; auto.
+  Qed.
+
   (* strptime, then anything that leaves the register alone, then a read *)
   Theorem strptime_then_observed cfg hist w0 now year pre layout value p mid :
     time_parse (c_loc cfg) layout value = Some p ->
